@@ -293,7 +293,13 @@ Definition judge_lock (ti tobs : tree) : tree :=
                          cs ++ (if existsb (fun cs' => match fst cs' with CFail => true | _ => false end) out
                                    && existsb (tree_eqb (clause 3 8 [])) cs
                                 then [clause 18 9 []] else []))
-                     ++ final_clauses nt fin
+                     (* not after a shutdown timeout (predicted by the model or observed: a snapshot with main code 2, or a wait
+                        that lasted the whole timeout): the forced stop leaves events behind by design, and once it has
+                        completed the harness can no longer tell the run from a clean one *)
+                     ++ (if existsb (fun cs => match snd cs with T [_; L 2; _] => true | _ => false end) out
+                            || existsb (fun g => match g with T [_; L 2; _] => true | _ => false end) snaps
+                            || existsb (fun ms => Z.of_nat (li_T i) * 1000 - 100 <=? ms) waits
+                         then [] else final_clauses nt fin)
                      ++ c18_return_clauses (snaps ++ match fin with T [sn; _] => [sn] | _ => [] end) in
       verdict (dedup diffs) clauses (T [enc_net nt; s0; ofList (fun cs => snd cs) out])
               (dedup (flat_map (fun cs => tag_of_cmd (fst cs)) out)
